@@ -104,3 +104,48 @@ def rule_completed_publisher_stays_completed(ctx, rule):
                 bad or 'request(n) in each of the %d states the delivering task can end in creates no new %s task' % (
                     n_states, deliver.node.name))
     rep.require(rule, 'generator-backed publishers', n, 2)
+
+
+def rule_failure_stops_delivery_first(ctx, rule):
+    """When the application's generator fails, the producing task tells the subscriber (on_error) - and from then on
+    nothing may be delivered: the delivering task must be cancelled before the producing task suspends again.  An await
+    between on_error and the cancellation (waiting for the queue to drain, say) lets the delivering task hand the queued
+    elements to a subscriber that has already been given its terminal signal."""
+    from ..effects import signal_kind
+    rep = ctx.report
+    repo = ctx.repo
+    base = repo.cls(BASE)
+    n = 0
+    for k in sorted(repo.concrete_subclasses(base), key=lambda c: c.name):
+        q = k.lookup('queue_next_n')
+        if q is None:
+            raise AnalysisError('%s: %s.queue_next_n vanished' % (rule, k.name))
+        ps = ctx.paths(q, k, exc=('app',), inline_depth=2, no_inline={'_start_generator', '_generate_next_n'})
+        n_err = 0
+        bad = None
+        for p in ps:
+            errs = [e for e in p.events if signal_kind(e) == 'error']
+            if not errs:
+                continue
+            n_err += 1
+            after = [e for e in p.events if e.seq > errs[0].seq]
+            if p.outcome == 'raise' and not [e for e in after if e.kind == 'call']:
+                continue  # on_error itself raised: nothing of this rule's concern follows
+            cancels = [e for e in after if e.kind == 'call' and 'cancel' in str(e.data.get('name')) and (
+                'feeder' in str(e.data.get('name')) or (
+                    e.data.get('recv') is not None and 'feeder' in repr(strip_epoch(e.data['recv'].term))))]
+            first_cancel = cancels[0].seq if cancels else None
+            susp = [e for e in after if (e.kind == 'await' or (e.kind == 'call' and e.data.get('awaited'))) and
+                    (first_cancel is None or e.seq < first_cancel)]
+            if susp:
+                bad = ('after on_error the producing task awaits (line %s) before the delivering task is cancelled: '
+                       'elements still queued are delivered after the terminal signal' % susp[0].line)
+            elif first_cancel is None:
+                bad = 'after on_error the delivering task is never cancelled'
+        if n_err == 0:
+            raise AnalysisError('%s: %s.queue_next_n never signals an error' % (rule, k.name))
+        n += 1
+        rep.add(rule, '%s.queue_next_n / nothing is delivered after the failure is signalled' % k.name, q, bad is None,
+                bad or 'on every path that signals on_error the feeders are cancelled before the task suspends again '
+                       '(%d paths)' % n_err)
+    rep.require(rule, 'generator-backed publishers', n, 2)
